@@ -1650,7 +1650,7 @@ pub fn oracle_c20_dev_restore(op: &str, outs: &[String]) -> String {
     for (ev, o) in evs.iter().zip(outs.iter()) {
         let w: Vec<&str> = ev.split('|').next().unwrap_or("").split_whitespace().collect();
         match w.first().copied() {
-            Some("sess") if w.len() == 4 => {
+            Some("sess") if w.len() == 4 || w.len() == 6 => {
                 want = match (w[1].parse::<u32>(), w[2].parse::<u32>()) {
                     (Ok(da), Ok(up)) => Some((da, up, w[3].parse::<u32>().ok())),
                     _ => None,
